@@ -601,8 +601,10 @@ func c16Kinds(c *Ctx, reader *ssa.Function) {
 	c.R.Floor(rule, 3)
 }
 
-func c16Normalise(c *Ctx, d *Dispatcher) {
-	const rule = "C16.normalise-everywhere"
+func c16Normalise(c *Ctx, d *Dispatcher) { c16NormaliseAs(c, d, "C16.normalise-everywhere", false) }
+
+// c16NormaliseAs: timesOnly restricts the obligations to what dates rely on (a time.Time leaves the normaliser unchanged).
+func c16NormaliseAs(c *Ctx, d *Dispatcher, rule string, timesOnly bool) {
 	pos := c.P.Pos(d.Fn.Pos())
 	// every nil-error return of the dispatcher is the normaliser's result
 	var norm *ssa.Function
@@ -647,6 +649,9 @@ func c16Normalise(c *Ctx, d *Dispatcher) {
 		seen[typeKey(a.Type)] = true
 	}
 	for _, k := range specNormalisedKinds {
+		if timesOnly {
+			break
+		}
 		r := c.foldWith(norm, 0, pinTypeCase(v, k))
 		ok := seen[k] && len(r.Returns) > 0
 		why := ""
@@ -663,6 +668,9 @@ func c16Normalise(c *Ctx, d *Dispatcher) {
 		c.R.Check(rule, "kind:"+k, np, ok, "a Go "+k+" must become a fresh formula number ("+why+")")
 	}
 	for _, k := range []string{"string", "bool", "time.Time", "other", "*decimal.Big", "[]interface{}"} {
+		if timesOnly && k != "time.Time" {
+			continue
+		}
 		r := c.foldWith(norm, 0, pinTypeCase(v, k))
 		ok := len(r.Returns) > 0
 		for _, ret := range r.Returns {
@@ -680,6 +688,10 @@ func c16Normalise(c *Ctx, d *Dispatcher) {
 				ok = false
 			}
 		}
+	}
+	if timesOnly {
+		c.R.Floor(rule, 2)
+		return
 	}
 	c.R.Check(rule, "unchanged:nil", np, ok, "null stays null")
 	c.R.Floor(rule, 11)
@@ -923,6 +935,7 @@ func (c *Ctx) memberReader(d *Dispatcher) *ssa.Function {
 			}
 		}
 	})
+	c.P.touch(reader)
 	return reader
 }
 
